@@ -3,7 +3,7 @@
    The order hypotheses on the numeric type hold at the real and the rational
    instance (used only for the MT~ mode). *)
 From Coq Require Import List Bool Arith.
-From ART Require Import Num NumR Vec Search Kernel BaseArt SimpleARTMAP SimpleARTMAP_proofs Fuzzy.
+From ART Require Import Num NumR Vec Search Kernel BaseArt SimpleARTMAP SimpleARTMAP_proofs Fuzzy SAM_reach.
 Import ListNotations.
 
 (* an existing category that absorbs the sample was not vetoed: hence the
@@ -68,6 +68,27 @@ Theorem C09_predict :
     MapInv s p -> sam_step_pred K s x = Some (ca, cb) ->
     lookup (mp s) ca = Some cb /\ In cb (bl s) /\ step_pred K (A s) x = Some ca.
 Proof. exact @sam_predict_seen_class. Qed.
+(* for every state reachable by any history of fit / partial_fit calls *)
+Theorem C09_reachable_state_reproduces_its_targets :
+  forall (N : Num) (K : Kernel N),
+    (forall a b : N, nleb a b = true \/ nleb b a = true) ->
+    (forall a b c : N, nleb a b = true -> nleb b c = true -> nleb a c = true) ->
+    forall r s, sreach K r s -> map_a2b (mp s) (labels (A s)) = Some (bl s).
+Proof. exact @reach_map_reproduces_targets. Qed.
+Theorem C09_reachable_state_predicts_a_seen_class :
+  forall (N : Num) (K : Kernel N),
+    (forall a b : N, nleb a b = true \/ nleb b a = true) ->
+    (forall a b c : N, nleb a b = true -> nleb b c = true -> nleb a c = true) ->
+    forall r s x ca cb, sreach K r s -> sam_step_pred K s x = Some (ca, cb) ->
+    lookup (mp s) ca = Some cb /\ In cb (bl s) /\ step_pred K (A s) x = Some ca.
+Proof. exact @reach_predict_seen_class. Qed.
+Theorem C09_a_category_keeps_its_class_for_the_whole_history :
+  forall (N : Num) (K : Kernel N),
+    (forall a b : N, nleb a b = true \/ nleb b a = true) ->
+    (forall a b c : N, nleb a b = true -> nleb b c = true -> nleb a c = true) ->
+    forall r s s' c b, sreach K r s -> pf_reach K s s' -> lookup (mp s) c = Some b -> lookup (mp s') c = Some b.
+Proof. exact @category_keeps_its_class. Qed.
+Print Assumptions C09_a_category_keeps_its_class_for_the_whole_history.
 Print Assumptions C09_reachable.
 Print Assumptions C09_map_reproduces_targets.
 Print Assumptions C09_predict.
